@@ -20,10 +20,13 @@
      write_all       "continuously calls write until there is no more data to be written or an error
                       of non-Interrupted kind is returned ... " a write returning Ok(0) -> WriteZero.
 
-   A stream state that std leaves unspecified (after a failed exact transfer) is [None]. *)
+   A stream state that std leaves unspecified (after a failed exact transfer) is [None]; so is the
+   state after a single read / write that returned an OS error (only the message queue does: EAGAIN
+   on an empty queue) - the comparison with the twin stops there, the adapter's later operations are
+   still judged from its own observed state. *)
 From VM Require Import Prelude.MachInt Prelude.Outcome Prelude.C1314List Impl.Io.
 
-Inductive skind := KSliceR | KSliceW | KVecW | KCurR | KCurW | KFile | KQueue.
+Inductive skind := KSliceR | KSliceW | KVecW | KCurR | KCurW | KFile | KQueue | KMsgQ.
 Inductive op13 :=
   | ORead (pre : list N)        (* read into a buffer currently holding [pre] *)
   | OReadExact (pre : list N)
@@ -125,20 +128,24 @@ Arguments std_fd_read {F}. Arguments std_fd_write {F}.
 Arguments std_fd_read_exact {F}. Arguments std_fd_write_all {F}.
 
 Definition os_read_of (k : skind) : sstate -> N -> sstate * os_rres :=
-  match k with KQueue => queue_read | _ => file_read end.
+  match k with KQueue => queue_read | KMsgQ => msgq_read | _ => file_read end.
 Definition os_write_of (k : skind) : sstate -> list N -> sstate * os_wres :=
-  match k with KQueue => queue_write | _ => file_write end.
+  match k with KQueue => queue_write | KMsgQ => msgq_write | _ => file_write end.
 
 (* which operations a stream kind offers *)
 Definition op_allowed (k : skind) (o : op13) : bool :=
   match o, k with
   | OSetPos _, _ => true
-  | (ORead _ | OReadExact _), (KSliceR | KCurR | KFile | KQueue) => true
-  | (OWrite _ | OWriteAll _), (KSliceW | KVecW | KCurW | KFile | KQueue) => true
+  | (ORead _ | OReadExact _), (KSliceR | KCurR | KFile | KQueue | KMsgQ) => true
+  | (OWrite _ | OWriteAll _), (KSliceW | KVecW | KCurW | KFile | KQueue | KMsgQ) => true
   | _, _ => false
   end.
 Definition seekable (k : skind) : bool :=
   match k with KCurR | KCurW | KFile => true | _ => false end.
+
+(* the stream state is only compared after a successful call *)
+Definition keep_if (rc : N * N) (st : sstate) : option sstate :=
+  if (fst rc =? 0) || (fst rc =? 1) || (fst rc =? 9) then Some st else None.
 
 (* one std operation: (stream afterwards | unspecified, bytes put at the start of the buffer, result) *)
 Definition std_step (k : skind) (st : sstate) (o : op13) : outcome (option sstate * list N * (N * N)) :=
@@ -152,7 +159,7 @@ Definition std_step (k : skind) (st : sstate) (o : op13) : outcome (option sstat
         | KCurR => std_cursor_read st len
         | _ => std_fd_read (os_read_of k) st len
         end in
-      Val (Some st', bs, rc_n r)
+      Val (keep_if (rc_n r) st', bs, rc_n r)
   | OReadExact pre =>
       let len := nlen pre in
       match k with
@@ -169,7 +176,7 @@ Definition std_step (k : skind) (st : sstate) (o : op13) : outcome (option sstat
         | KCurW => std_cursor_write st d
         | _ => std_fd_write (os_write_of k) st d
         end in
-      Val (Some st', [], rc_n r)
+      Val (keep_if (rc_n r) st', [], rc_n r)
   | OWriteAll d =>
       match k with
       | KSliceW => let '(o', r) := std_mslice_write_all st d in Val (o', [], rc_unit r)
